@@ -97,8 +97,6 @@ Section Proofs.
     - (* park *)
       split; cbn [gs done remaining delayq errs]; intros h; updc h g; cbn [st local outbox slot act]; unfold first_return; fin;
         try (destruct (Nat.eqb_spec (act (gs s g)) 1)); fin2 HS.
-      all: try (match goal with |- ?G => idtac "GOAL-park" G end).
-      all: admit.
     - (* count *)
       unfold s1, last in *; clear s1 last.
       assert (Hg : st (gs s g) <> NotAct) by (intros E; destruct (P2 _ E) as (_ & _ & A); lia).
